@@ -101,7 +101,9 @@ func HarnessC01Int() {
 // HarnessC01Float: NewFloatMessage on a witness list (shortest round-trip formatting is strconv's).
 func HarnessC01Float() {
 	vsymUnwind(128)
-	ws := []float64{0, 0.1, 1.0 / 3.0, 1e21, 5e-324, math.MaxFloat64, 123456.789, -2.5, 1e-7, 100}
+	ws := []float64{0, 0.1, 1.0 / 3.0, 1e21, 5e-324, math.MaxFloat64, 123456.789, -2.5, 1e-7, 100,
+		1e6, 1e15, 9007199254740992, 9007199254740993, 9223372036854775807, 9223372036854775808, 9.5e18, -9.5e18, -9223372036854775808,
+		1e19, 18446744073709551615, 1e20, 4294967296, 2147483648, -1, 1e-320, 123456789012345678}
 	f := ws[vsymChoice("witness", len(ws))]
 	got := c01RoundTrip(NewFloatMessage(f))
 	s, err := got.String()
